@@ -11,6 +11,16 @@
 // transactions were packaged / discarded, tx.GasUsed, gas limit / price, payer and the state of the whole address
 // universe before and after (balances, votes, voteFor, candidate registration + deposit, asset supply and every
 // holder's equity), read with account.NewManager(blockHash, db).  It never judges.
+//
+// Worlds.  The initial state of a behaviour names the term duration T, the interim duration I and the height h0 of
+// the last setup block (st.T, st.I, st.h).  With the real durations (the "mid-term" world) the scenario blocks are
+// heights 4-5 of the genesis term, never confirmed, and every behaviour forks off the last setup block of one node
+// pair.  With a small T (params.TermDuration / InterimDuration are package variables) the setup chain continues with
+// empty blocks up to h0 >= T, so that the snapshot block of term 1 is a stable setup block, and the scenario blocks are
+// interim blocks, the REWARD block T+I+1 and the blocks after it.  There every committed scenario block is made stable
+// (validator: DPoVP.InsertConfirms with the other deputies' signatures; builder: store.SetStableBlock), as on a live
+// chain where the interim period is far longer than the confirmation delay - the candidate index the reward block's
+// refunds are enumerated from follows stable blocks - and every behaviour gets a fresh node pair.
 package ledger
 
 import (
@@ -42,9 +52,10 @@ import (
 var unit = new(big.Int).Exp(big.NewInt(10), big.NewInt(15), nil)
 
 const (
-	lemo      = 1000 // units per LEMO
-	totalLemo = 1000000
-	hugeInt   = 2000000000 // abstract amount standing for 2^256 in asset transactions
+	lemo       = 1000 // units per LEMO
+	totalLemo  = 1000000
+	hugeInt    = 2000000000 // abstract amount standing for 2^256 in asset transactions
+	rewardPool = 600000     // params.TermRewardPoolTotal in LEMO (lowered like chain.TotalLEMO)
 )
 
 func units(n int64) *big.Int { return new(big.Int).Mul(big.NewInt(n), unit) }
@@ -64,6 +75,15 @@ type atx struct {
 	Inc  bool
 	GU   uint64
 	hash common.Hash
+	X    int64 // kind specific: the term of a reward setting
+}
+
+// world: one setup chain (see the package comment)
+type world struct {
+	T, I  uint32
+	h0    int
+	stab  bool
+	setup []*types.Block
 }
 
 type acct struct {
@@ -80,7 +100,11 @@ type adapter struct {
 	accs    []*acct
 	byName  map[string]*acct
 	byAddr  map[common.Address]string
-	setup   []*types.Block // S1, S2 built once per process
+	setup   []*types.Block // S1, S2, S3 built once per process
+	worlds  map[string]*world
+	wd      *world // the world of the current node pair
+	defT    uint32
+	defI    uint32
 	assetID common.Hash
 	gen     *node.Node // builds the setup blocks
 	B, V    *node.Node
@@ -160,6 +184,9 @@ func (a *adapter) init() {
 	a.recycle = envInt("VERIF_LEDGER_RECYCLE", 150)
 	chain.TotalLEMO = units(totalLemo * lemo)
 	params.MinCandidateDeposit = units(300 * lemo)
+	params.TermRewardPoolTotal = units(rewardPool * lemo)
+	a.defT, a.defI = params.TermDuration, params.InterimDuration
+	a.worlds = map[string]*world{}
 	a.w = node.NewWorld(2, 1000)
 	deputynode.SetSelfNodeKey(a.w.Outsider2())
 	a.byName = map[string]*acct{}
@@ -175,6 +202,7 @@ func (a *adapter) init() {
 		}
 	}
 	a.add("F", a.w.FounderKey, common.Address{})
+	a.add("R", nil, params.TermRewardContract)
 	a.add("P", nil, params.DepositPoolAddress)
 	a.add("Z", nil, common.Address{})
 	// initial balances in LEMO; the seed moves them a little around the 200-LEMO vote boundary
@@ -241,6 +269,12 @@ func (a *adapter) realTx(t *atx, exp uint64) *types.Transaction {
 		typ, amount = params.OrdinaryTx, units(t.Amt)
 	case "vote":
 		typ = params.VoteTx
+	case "setrew": // an ordinary transaction without LEMO calling the reward precompile
+		typ = params.OrdinaryTx
+		var err error
+		if data, err = json.Marshal(params.RewardJson{Term: uint32(t.X), Value: units(t.Amt)}); err != nil {
+			engine.Failf("reward data: %v", err)
+		}
 	case "reg", "topup":
 		typ, amount, to = params.RegisterTx, units(t.Amt), nil
 		data = a.profile(f, true, f.addr)
@@ -371,9 +405,9 @@ func (a *adapter) buildOn(n *node.Node, parent *types.Block, txs types.Transacti
 
 // fresh gives a new real node that received the setup blocks through DPoVP.InsertBlock and the confirms of both
 // deputies through DPoVP.InsertConfirms, so that they are stable (asset transactions need a stable create / issue).
-func (a *adapter) fresh(tag string) *node.Node {
+func (a *adapter) fresh(tag string, wd *world) *node.Node {
 	n := a.w.NewNode(filepath.Join(a.dir, fmt.Sprintf("%s%d", tag, a.seq)))
-	for _, s := range a.setup {
+	for _, s := range wd.setup {
 		if _, err := n.DP.InsertBlock(node.Copy(s, nil)); err != nil {
 			engine.Failf("feeding setup block to %s: %v", tag, err)
 		}
@@ -382,8 +416,11 @@ func (a *adapter) fresh(tag string) *node.Node {
 			engine.Failf("confirming setup block on %s: %v", tag, err)
 		}
 	}
-	if n.DP.StableBlock().Hash() != a.setup[len(a.setup)-1].Hash() {
+	if n.DP.StableBlock().Hash() != wd.setup[len(wd.setup)-1].Hash() {
 		engine.Failf("setup blocks did not become stable on %s", tag)
+	}
+	if wd.stab { // no asset transactions in the term worlds (their configurations do not enable them)
+		return n
 	}
 	// The store writes the asset-code -> issuer index of a stable block from a background goroutine; until then the
 	// processor of this node discards / rejects every transaction on the asset ("asset dose not exist").  Wait for it
@@ -400,31 +437,147 @@ func (a *adapter) fresh(tag string) *node.Node {
 	return n
 }
 
-// Reset: the builder node B and the validator node V are kept for `recycle` behaviours.  Scenario blocks are never
-// confirmed (2 deputies: a block needs both), so every behaviour forks off the last setup block.
+// worldOf returns (building it on first use) the setup chain for the durations and setup height a behaviour names.
+func (a *adapter) worldOf(T, I uint32, h0 int) *world {
+	key := fmt.Sprintf("%d/%d/%d", T, I, h0)
+	if wd, ok := a.worlds[key]; ok {
+		return wd
+	}
+	wd := &world{T: T, I: I, h0: h0, setup: append([]*types.Block(nil), a.setup...)}
+	if h0 < len(a.setup) || T <= uint32(len(a.setup)) {
+		engine.Failf("world %s: the setup blocks occupy heights 1..%d of the genesis term", key, len(a.setup))
+	}
+	if h0 > len(a.setup) {
+		// a term-boundary world: empty blocks up to h0, the snapshot block of term 1 among them; the scenario must not
+		// contain a snapshot block and must start before term 1's deputies sign (they are not all in the key universe)
+		if uint32(h0) < T || uint32(h0) > T+I {
+			engine.Failf("world %s: the last setup block must lie in T..T+I", key)
+		}
+		wd.stab = true
+		a.setParams(wd)
+		parent := wd.setup[len(wd.setup)-1]
+		for int(parent.Height()) < h0 {
+			parent = a.buildOn(a.gen, parent, nil, nil, fmt.Sprintf("S%d.%s", parent.Height()+1, key))
+			wd.setup = append(wd.setup, parent)
+		}
+	}
+	a.worlds[key] = wd
+	return wd
+}
+
+func (a *adapter) setParams(wd *world) {
+	params.TermDuration, params.InterimDuration = wd.T, wd.I
+}
+
+func (a *adapter) nodeID(ac *acct) []byte {
+	switch ac.name {
+	case "M1":
+		return a.w.NodeIDs[0]
+	case "M2":
+		return a.w.NodeIDs[1]
+	}
+	if ac.key == nil {
+		return nil
+	}
+	return crypto.PrivateKeyToNodeID(ac.key)
+}
+
+// nodeKey: the private key behind a deputy's node id (world deputies, or an account of the universe that was elected)
+func (a *adapter) nodeKey(id []byte) *ecdsa.PrivateKey {
+	for i, x := range a.w.NodeIDs {
+		if string(x) == string(id) {
+			return a.w.Keys[i]
+		}
+	}
+	for _, ac := range a.accs {
+		if ac.key != nil && ac.name != "M1" && ac.name != "M2" && string(crypto.PrivateKeyToNodeID(ac.key)) == string(id) {
+			return ac.key
+		}
+	}
+	return nil
+}
+
+// terms describes, for every term the setup chain has elected, which accounts of the universe are its deputies (by
+// node id, as IsNodeDeputy sees them) and whom its reward would be paid to (income account and votes of every node).
+func (a *adapter) terms(n *node.Node, wd *world, at common.Hash) (deps [][]string, payees [][]map[string]interface{}) {
+	am := account.NewManager(at, n.DB)
+	for k := uint32(0); k <= uint32(wd.h0)/wd.T; k++ {
+		h := uint32(1)
+		if k > 0 {
+			h = k*wd.T + wd.I + 1
+		}
+		term, err := n.DM.GetTermByHeight(h, true)
+		if err != nil {
+			engine.Failf("term %d is not known to the node: %v", k, err)
+		}
+		ds, ps := []string{}, []map[string]interface{}{}
+		for _, d := range term.GetDeputies(n.DM.DeputyCount) {
+			for _, ac := range a.accs {
+				if id := a.nodeID(ac); id != nil && string(id) == string(d.NodeID) {
+					ds = append(ds, ac.name)
+				}
+			}
+		}
+		for _, d := range term.Nodes {
+			inc := d.MinerAddress
+			if s := am.GetAccount(d.MinerAddress).GetCandidateState(types.CandidateKeyIncomeAddress); s != "" {
+				if x, err := common.StringToAddress(s); err == nil {
+					inc = x
+				}
+			}
+			name, ok := a.byAddr[inc]
+			if !ok {
+				engine.Failf("income address of a term-%d node outside the universe: %s", k, inc.String())
+			}
+			bad := []string{}
+			ps = append(ps, map[string]interface{}{"a": name, "v": small(d.Votes, "votes", &bad)})
+		}
+		deps, payees = append(deps, ds), append(payees, ps)
+	}
+	return
+}
+
+// Reset: in the mid-term world the builder node B and the validator node V are kept for `recycle` behaviours: scenario
+// blocks are never confirmed there (2 deputies: a block needs both), so every behaviour forks off the last setup block.
+// In a term-boundary world committed blocks become stable, so every behaviour gets a fresh pair.
 func (a *adapter) Reset(init map[string]tla.Value) (engine.Fields, error) {
 	if a.w == nil {
 		a.init()
 	}
-	if a.B == nil || a.dirty || a.nbeh%a.recycle == 0 {
+	T, I, h0 := a.defT, a.defI, len(a.setup)
+	if st, ok := init["st"]; ok {
+		T, I, h0 = uint32(st.F("T").I()), uint32(st.F("I").I()), st.F("h").I()
+	} else if v := os.Getenv("VERIF_LEDGER_WORLD"); v != "" { // probe driver: "T,I,h0"
+		var t, i, h int
+		if _, err := fmt.Sscanf(v, "%d,%d,%d", &t, &i, &h); err != nil {
+			engine.Failf("bad VERIF_LEDGER_WORLD=%s", v)
+		}
+		T, I, h0 = uint32(t), uint32(i), h
+	}
+	wd := a.worldOf(T, I, h0)
+	a.setParams(wd)
+	if a.B == nil || a.dirty || a.wd != wd || wd.stab || a.nbeh%a.recycle == 0 {
 		a.dirty = false
 		a.retire(a.B, a.V)
 		a.reap(false)
 		a.seq++
-		a.B, a.V = a.fresh("b"), a.fresh("v")
+		a.wd = wd
+		a.B, a.V = a.fresh("b", wd), a.fresh("v", wd)
 	}
 	a.nbeh++
-	a.parent = a.setup[len(a.setup)-1]
+	a.parent = wd.setup[len(wd.setup)-1]
 	a.pending, a.last, a.lastTxs = nil, nil, nil
 	names := []string{}
 	for _, ac := range a.accs {
 		names = append(names, ac.name)
 	}
+	bad := []string{}
 	fl := engine.Fields{"accs": names, "income": "I", "pool": "P", "zero": "Z", "issuer": "a4",
 		"V": 200 * lemo, "D": 100 * lemo, "mindep": 300 * lemo,
 		"rev": []string{"KR", "KX"}, "sink": []string{"KS"}, "burn": []string{"KD"}, "back": []string{"KO"},
-		"height": int(a.parent.Height())}
-	bad := []string{}
+		"rm": "F", "rc": "R", "prec": toUnits(params.MinRewardPrecision, "prec", &bad), "rpool": toUnits(params.TermRewardPoolTotal, "rpool", &bad),
+		"height": int(a.parent.Height()), "stab": wd.stab}
+	fl["deps"], fl["payees"] = a.terms(a.B, wd, a.parent.Hash())
 	fl["st"] = a.state(a.B.DB, a.parent.Hash(), &bad)
 	fl["inexact"] = bad
 	return fl, nil
@@ -498,6 +651,31 @@ func (a *adapter) state(db *store.ChainDatabase, h common.Hash, bad *[]string) m
 		}
 	}
 	st := map[string]interface{}{"bal": bal, "votes": votes, "vf": vf, "reg": reg, "dep": dep, "eq": eq, "code": code, "sup": 0, "frz": false}
+	// the block's height, the durations in force, and what the reward precompile has stored for terms 0 and 1
+	st["T"], st["I"] = int(params.TermDuration), int(params.InterimDuration)
+	if blk, err := db.GetBlockByHash(h); err == nil {
+		st["h"] = int(blk.Height())
+	} else {
+		engine.Failf("state: block %s: %v", h.Hex(), err)
+	}
+	rwd, rwt := []int64{0, 0}, []int64{0, 0}
+	rc := am.GetAccount(params.TermRewardContract)
+	if raw, err := rc.GetStorageState(params.TermRewardContract.Hash()); err != nil {
+		*bad = append(*bad, "rewards:"+err.Error())
+	} else if len(raw) > 0 {
+		m := make(params.RewardsMap)
+		if err := json.Unmarshal(raw, &m); err != nil {
+			*bad = append(*bad, "rewards:"+err.Error())
+		}
+		for k, r := range m {
+			if k > 1 || r == nil || r.Value == nil {
+				*bad = append(*bad, fmt.Sprintf("rewards.term%d", k))
+				continue
+			}
+			rwd[k], rwt[k] = toUnits(r.Value, fmt.Sprintf("rwd.%d", k), bad), int64(r.Times)
+		}
+	}
+	st["rwd"], st["rwt"] = rwd, rwt
 	if (a.assetID != common.Hash{}) {
 		is := am.GetAccount(a.byName["a4"].addr)
 		if s, err := is.GetAssetCodeTotalSupply(a.assetID); err == nil {
@@ -513,7 +691,7 @@ func (a *adapter) state(db *store.ChainDatabase, h common.Hash, bad *[]string) m
 }
 
 func (t *atx) json() map[string]interface{} {
-	m := map[string]interface{}{"k": t.K, "f": t.F, "t": t.T, "p": t.P, "amt": t.Amt, "gl": t.GL, "gp": t.GP, "gu": t.GU, "inc": t.Inc}
+	m := map[string]interface{}{"k": t.K, "f": t.F, "t": t.T, "p": t.P, "amt": t.Amt, "gl": t.GL, "gp": t.GP, "gu": t.GU, "inc": t.Inc, "x": t.X}
 	subs := []interface{}{}
 	for _, s := range t.Subs {
 		subs = append(subs, s.json())
@@ -539,7 +717,7 @@ func (a *adapter) mine() (*types.Block, []*atx) {
 		// distinct expirations keep equal abstract transactions distinct real ones
 		txs = append(txs, a.realTx(t, uint64(node.GenesisTime)+1000+uint64(int(a.parent.Height())*50+i)))
 	}
-	blk, invalid, err := a.B.Build(a.parent, int(a.parent.Height())%2, 0, txs, fmt.Sprintf("h%d.%d", a.parent.Height()+1, a.nbuild))
+	blk, invalid, err := a.B.Build(a.parent, a.minerFor(a.parent), 0, txs, fmt.Sprintf("h%d.%d", a.parent.Height()+1, a.nbuild))
 	a.nbuild++
 	if err != nil {
 		engine.Failf("Build: %v", err)
@@ -589,6 +767,47 @@ func (a *adapter) mine() (*types.Block, []*atx) {
 		}
 	}
 	return blk, abs
+}
+
+// minerFor: the two genesis deputies take turns; after a term change the one that was re-elected mines.
+func (a *adapter) minerFor(parent *types.Block) int {
+	r := int(parent.Height()) % 2
+	for _, c := range []int{r, 1 - r} {
+		if a.B.DM.GetDeputyByAddress(parent.Height()+1, a.w.Miners[c]) != nil {
+			return c
+		}
+	}
+	engine.Failf("no genesis deputy signs at height %d", parent.Height()+1)
+	return 0
+}
+
+// stabilise makes the committed block stable on both nodes (term-boundary worlds).
+func (a *adapter) stabilise(blk *types.Block, onV bool) {
+	if onV {
+		var sigs []types.SignData
+		for _, d := range a.V.DM.GetDeputiesByHeight(blk.Height(), true) {
+			if d.MinerAddress == blk.MinerAddress() {
+				continue
+			}
+			k := a.nodeKey(d.NodeID)
+			if k == nil {
+				engine.Failf("no key for deputy %s at height %d", d.MinerAddress.String(), blk.Height())
+			}
+			sigs = append(sigs, node.Sign(blk.Hash(), k, 0))
+		}
+		if err := a.V.DP.InsertConfirms(blk.Height(), blk.Hash(), sigs); err != nil {
+			engine.Failf("confirming block %d on the validator: %v", blk.Height(), err)
+		}
+		if a.V.DP.StableBlock().Hash() != blk.Hash() {
+			engine.Failf("block %d did not become stable on the validator", blk.Height())
+		}
+	}
+	if _, err := a.B.DB.SetStableBlock(blk.Hash()); err != nil {
+		engine.Failf("stabilising block %d on the builder: %v", blk.Height(), err)
+	}
+	if deputynode.IsSnapshotBlock(blk.Height()) {
+		a.B.DM.SaveSnapshot(blk.Height(), blk.DeputyNodes)
+	}
 }
 
 // logBlock logs a mined block: transactions, state before / after on db, touched addresses.
@@ -654,6 +873,9 @@ func (a *adapter) Apply(s engine.Step) (engine.Fields, error) {
 		t = mk("topup", str(0), "", num(1)*lemo, 130000)
 	case "Unregister":
 		t = mk("unreg", str(0), "", 0, 130000)
+	case "SetReward": // sender, term, value (LEMO)
+		t = mk("setrew", str(0), "R", num(2)*lemo, 60000)
+		t.X = num(1)
 	case "Issue":
 		t = mk("issue", str(0), str(1), num(2), 100000)
 	case "Replenish":
@@ -684,6 +906,9 @@ func (a *adapter) Apply(s engine.Step) (engine.Fields, error) {
 			a.logBlock(fl, a.B.DB, a.last, a.lastTxs)
 		} else {
 			a.logBlock(fl, a.V.DB, a.last, a.lastTxs) // the validator's own account data
+		}
+		if a.wd.stab {
+			a.stabilise(a.last, err == nil)
 		}
 		a.parent, a.pending, a.last, a.lastTxs = a.last, nil, nil, nil
 		return fl, nil
